@@ -47,7 +47,8 @@ OBLIGATIONS = [
     "C15_deterministic", "C15_set_order_irrelevant", "C15_direct_children", "C15_shipped_graphs",
     # extension 4: from the definitions (from_dict / get_named_parameters / then / key-set check) to the graph
     "C15_named_parameters", "C15_from_dict_edges", "C15_from_dict_refuses_signature", "C15_from_dict_refuses_unknown",
-    "C15_then_keeps_parents", "C15_from_dict_closures", "C15_from_dict_params_only", "C15_key_set_check", "C15_from_dict_source",
+    "C15_then_keeps_parents", "C15_from_dict_closures", "C15_from_dict_params_only", "C15_from_dict_accepts_iff",
+    "C15_from_dict_error_meaning", "C15_key_set_check", "C15_from_dict_source",
 ]
 
 HDR = "From Coq Require Import List.\nFrom Leaspy Require Import Dag.DagModel.\nImport ListNotations.\n"
